@@ -1,5 +1,5 @@
 """C02 — XPath 1.0 expressions evaluate to the value the Recommendation defines."""
-import os, math, struct, importlib
+import os, re, math, struct, importlib
 from vlib import core, xpgen, xpref
 
 LEVEL = "proof"
@@ -117,7 +117,7 @@ def gen_cases(ctx, n_docs, per_doc, depth):
                                               "bool": lambda v: "b:%d" % v,
                                               "nodes": lambda v: "ns:" + ",".join(map(str, v))}[t](v))
                           for name, (t, v) in variables.items())
-        nonbmp = any(ord(c) > 0xFFFF for c in dtoks) or "1d4b3" in dtoks
+        nonbmp = re.search(r"[:,]d[89ab][0-9a-f]{2}[, )]", dtoks + " ") is not None     # a surrogate code unit in the document
         for _ in range(per_doc):
             g = xpgen.ExprGen(r, depth=r.choice([1, 2, 2, 3, depth]), variables=variables)
             e = g.gen()
@@ -195,6 +195,38 @@ def evaluate(ctx, cases, impl, model):
     return corr, orc
 
 
+def run_corpus(ctx, impl, known, hits):
+    """corpus first: stored replays with the value the Recommendation prescribes.
+       fixed_*.txt: regressions of repaired defects (a deviation is a VIOLATION);
+       k<N>.txt: replays of the known findings (a deviation prints KNOWN-FINDING)."""
+    cdir = os.path.join(core.VERIF, "corpus", "C02")
+    bad = []
+    for fn in sorted(os.listdir(cdir)) if os.path.isdir(cdir) else []:
+        lines = open(os.path.join(cdir, fn)).read().split("\n")
+        expects, cases = {}, []
+        for i, l in enumerate(lines):
+            if l.startswith("#expect ") and i + 1 < len(lines):
+                cid = lines[i + 1].split("|")[0]
+                expects[cid] = (l.split()[1], l.partition("# ")[2].partition("# ")[2] or l)
+                cases.append(lines[i + 1])
+        if not cases:
+            continue
+        rc, res, raw = core.run_lines(impl, "\n".join(cases) + "\n", sep="|")
+        for cid, (exp, what) in expects.items():
+            got = (res.get(cid) or "crash").split("|")[0]
+            ctx.cov["evaluations"] += 1
+            ctx.count("corpus:" + fn)
+            if got != exp:
+                key = fn.split(".")[0].upper()
+                if fn.startswith("k") and key in known:
+                    hits[key] = hits.get(key, 0) + 1
+                else:
+                    bad.append("# corpus %s: %s: library %s, Recommendation %s\n%s" % (
+                        fn, what, got, exp, [c for c in cases if c.startswith(cid + "|")][0]))
+    if bad:
+        ctx.violation("corpus", "# C02: stored replays (repaired defects) deviate from the Recommendation again\n" + "\n".join(bad))
+
+
 def run(ctx):
     ctx.assumptions += [
         "the expression string and the AST handed to the model are printed from one generated tree; that the real compiler produces that AST is the compiler correspondence (xpc family)",
@@ -224,6 +256,8 @@ def run(ctx):
         part.run_part(ctx)
 
     known = {k["key"]: k for k in ctx.known.for_property("C02")}
+    hits = {}
+    run_corpus(ctx, impl, known, hits)
     n_docs, per_doc = (60, 50) if not ctx.thorough else (600, 100)
     cases = gen_cases(ctx, n_docs, per_doc, 3)
     ctx.cov["samples"] = [c["str"] for c in cases[:12]]
@@ -235,7 +269,6 @@ def run(ctx):
         corr += c2
         orc += o2
         new = [o for o in orc if not (o["known"] and o["known"] in known)]
-    hits = {}
     for o in orc:
         if o["known"] and o["known"] in known:
             hits[o["known"]] = hits.get(o["known"], 0) + 1
